@@ -55,7 +55,8 @@ MCProgs(st) ==
     << Op("RJ"), Op("RJ"), Op("RJ") >>,
     << Op("RJ"), Op("NR"), Rd(1), Op("RJ"), Op("RM") >>,
     << Op("RM"), Op("RJ"), Ja(0) >>,
-    << Ja(0), Op("NR") >>, << Ja(1), Op("NR") >>, << Op("RM"), Ja(3), Op("RM") >> }
+    << Ja(0), Op("NR") >>, << Ja(1), Op("NR") >>, << Op("RM"), Ja(3), Op("RM") >>,
+    << Jar(2, 1), Op("NR") >>, << Jar(3, 2), Op("NR") >>, << Op("RM"), Jar(5, 3), Op("NR") >>, << Jar(0, 1), Op("NR") >> }
   \cup (IF HasComp(st) THEN {} ELSE { << Op("NR"), Rd(2), Rd(125), Op("RF"), Op("RM"), Op("RM") >> })
   \cup (IF Total(st) <= 600 THEN {<< Op("NR"), Rl(1), Op("NR"), Rl(7), Op("NR") >>} ELSE {})
 =============================================================================
